@@ -10,10 +10,9 @@ import CrabModel.Num.WrapInt
     exactly as arithmetic modulo 2^w).
   A result of the implementation that differs from the `BitVec` semantics is `.unsound` with the
   operands as witness, also when the model agrees with the implementation.  A result equal to the
-  `BitVec` semantics but different from the model is `.drift`.  Inputs on which the C++ executes an
-  undefined shift (model predicates `ubShift/ubAshr`: amount ≥ 64, or `ashr` of a negative value
-  by more than the width) are `.skip` when the
-  compiled code happens to give the `BitVec` answer and `.unsound` (marked `[C++ UB]`) otherwise.
+  `BitVec` semantics but different from the model is `.drift`.  (No input executes an undefined
+  C++ shift any more: the `ub` flag of `Ev` is always false; the `*_big` operations, amounts of the
+  width or more, are checked like the others.)
 
   Conventions of the reference: division/remainder by zero has no value (`err` expected:
   the code raises CRAB_ERROR); an illegal width (0, > 64) has no value; conversion from a big
@@ -59,9 +58,9 @@ def mBin (op : String) (a b : WrapInt) : Option Ev :=
   | "addeq" => some ⟨false, showW (a.addAssign b)⟩
   | "subeq" => some ⟨false, showW (a.subAssign b)⟩
   | "muleq" => some ⟨false, showW (a.mulAssign b)⟩
-  | "shl" | "shl_big" => some ⟨WrapInt.ubShift a b, showW (a.shl b)⟩
-  | "lshr" | "lshr_big" => some ⟨WrapInt.ubShift a b, showW (a.lshr b)⟩
-  | "ashr" | "ashr_big" => some ⟨WrapInt.ubAshr a b, showW (a.ashr b)⟩
+  | "shl" | "shl_big" => some ⟨false, showW (a.shl b)⟩
+  | "lshr" | "lshr_big" => some ⟨false, showW (a.lshr b)⟩
+  | "ashr" | "ashr_big" => some ⟨false, showW (a.ashr b)⟩
   | "eq" => some ⟨false, showB (a.eq? b)⟩
   | "ne" => some ⟨false, showB (a.ne? b)⟩
   | "lt" => some ⟨false, showB (a.lt? b)⟩
@@ -236,7 +235,7 @@ def handleWrap (op : String) (args : List Sexp) (res : List Sexp) : Verdict :=
           match ref with
           | none => .bad s!"wi.chain: unknown op {op2}"
           | some ref =>
-            let ub1 := WrapInt.ubAshr x sh
+            let ub1 := false
             match x.ashr sh with
             | none => classify ctx ub1 "err" ref impl
             | some t =>
